@@ -29,7 +29,7 @@ def parseKind : List String → Option Kind
   | ["D", u, a, b, c, d] => do some (.charDecl (← parseHex u) (pb a) (pb b) (pb c) (pb d))
   | ["B", cell, size, r, w, _, _] => do some (.bound (← cell.toNat?) (← size.toNat?) (pb r) (pb w))
   | ["F", v, r, _, _, _] => do some (.fixed (← parseHex v) (pb r))
-  | ["C", v, _, _, _, _] => do some (.cstring (← parseHex v))
+  | ["C", v, _, _, nr, _] => do some (.cstring (← parseHex v) (pb nr))
   | ["H", rk, wk, cell, _, _, _, nr, _] => do some (.handler (← rk.toNat?) (← wk.toNat?) (← cell.toNat?) (pb nr))
   | ["N", pos] => do some (.cccd (← pos.toNat?))
   | ["U", v] => do some (.userDesc (← parseHex v))
@@ -91,7 +91,10 @@ def drvStep (s : DState) (ws : List String) : DState × String :=
   match ws with
   | "def" :: name :: rest =>
       match parseServer rest with
-      | some srv => ({ s with tables := (name, srv) :: s.tables.filter (·.1 != name) }, "ok")
+      | some srv =>
+        -- the hypothesis of the C01 safety theorems is checked on every table dumped from the real templates
+        if TableWF srv then ({ s with tables := (name, srv) :: s.tables.filter (·.1 != name) }, "ok")
+        else (s, "MODEL-TABLE-NOT-WF")
       | none => (s, "bad-table")
   | "defcells" :: rest =>
       match parseCells rest with
@@ -99,7 +102,10 @@ def drvStep (s : DState) (ws : List String) : DState × String :=
       | none => (s, "bad-cells")
   | ["reset", name] =>
       match s.tables.find? (·.1 == name) with
-      | some (_, srv) => ({ s with srv := srv, cells := s.initCells, conns := List.replicate 3 (freshConn srv) }, "ok")
+      | some (_, srv) =>
+        if StateWF srv s.initCells (freshConn srv) then
+          ({ s with srv := srv, cells := s.initCells, conns := List.replicate 3 (freshConn srv) }, "ok")
+        else (s, "MODEL-STATE-NOT-WF")
       | none => (s, "bad-op")
   | ["table"] => (s, tableStr s.srv)
   | ["enctable"] => (s, encTable)
